@@ -18,7 +18,9 @@ package repository
 //                        first blob / to zero length
 //   pack-junk            add a file under data/ that is not a pack (named by its SHA-256)
 // Space: all subsets of size <= 2 (quick) / <= 3 (thorough) of the 27 atoms, applied in
-// canonical order, x --read-all-packs {off,on}.
+// canonical order, x {--read-all-packs off, on, off with every existing index file
+// counting as "full" (index.Full hook; real repositories: index files with >= 50000
+// entries, which the index rewrite keeps untouched unless they list a pack to remove)}.
 //
 // Oracle.  Ground truth GT(p) = pack.List (with the repository key) over the raw bytes
 // of every file under data/ after the damage, computed by the harness without any index.
@@ -48,6 +50,7 @@ import (
 
 	"github.com/restic/restic/internal/backend"
 	"github.com/restic/restic/internal/backend/mem"
+	"github.com/restic/restic/internal/repository/index"
 	"github.com/restic/restic/internal/repository/pack"
 	"github.com/restic/restic/internal/restic"
 	rtest "github.com/restic/restic/internal/test"
@@ -360,7 +363,7 @@ func verifC33Canon(entries []verifC33Entry) string {
 	return strings.Join(s, " ")
 }
 
-func verifC33Case(t testing.TB, f *verifC33Fixture, atoms []string, readAll bool) (fails []string, outcome string) {
+func verifC33Case(t testing.TB, f *verifC33Fixture, atoms []string, readAll, fullIdx bool) (fails []string, outcome string) {
 	ctx := context.Background()
 	fail := func(kind, format string, a ...any) { fails = append(fails, kind+": "+fmt.Sprintf(format, a...)) }
 	files := map[backend.Handle][]byte{}
@@ -413,6 +416,13 @@ func verifC33Case(t testing.TB, f *verifC33Fixture, atoms []string, readAll bool
 
 	// the repair
 	repo := verifC33Open(t, be)
+	if fullIdx {
+		// every existing index file counts as "full" (in real repositories: >= 50000 entries): such files
+		// are kept as they are by the index rewrite unless they list a pack that has to go
+		oldFull := index.Full
+		index.Full = func(*index.Index) bool { return true }
+		defer func() { index.Full = oldFull }()
+	}
 	err := RepairIndex(ctx, repo, RepairIndexOptions{ReadAllPacks: readAll}, restic.NewNoopPrinter())
 	if err != nil {
 		fail("repair-failed", "RepairIndex returned %v", err)
@@ -532,14 +542,18 @@ func TestVerif_C33(t *testing.T) {
 		if fix == nil {
 			fix = verifC33Build(t)
 		}
-		for _, readAll := range []bool{false, true} {
+		for _, mode := range []struct{ readAll, fullIdx bool }{{false, false}, {true, false}, {false, true}} {
+			readAll, fullIdx := mode.readAll, mode.fullIdx
 			var fails []string
 			var outcome string
-			panicked, msg := vh.NoPanic(func() { fails, outcome = verifC33Case(t, fix, names, readAll) })
+			panicked, msg := vh.NoPanic(func() { fails, outcome = verifC33Case(t, fix, names, readAll, fullIdx) })
 			r.Eval(1)
 			r.Trace(1)
 			r.Transition(int64(len(names) + 1))
 			key := fmt.Sprintf("%s|readall=%v", ck, readAll)
+			if fullIdx {
+				key += "|full-index-files"
+			}
 			if panicked {
 				r.Violationf(ck, "C33|"+key+"|panic", key, "panic: %s", msg)
 				continue
